@@ -26,7 +26,7 @@ RULE = (
     "centre list; multiplication of all weights of one catalog by a positive constant (powers of two and arbitrary); a split of the reference or "
     "unknown catalog into two parts on the same centres. Oracle: raw counts and weight sums related as the transformation dictates, and "
     "sample().data / samples / covariance / RedshiftData equal up to rounding (samples permuted with the centres). Cases with a pair inside "
-    "the ambiguity band of a scale edge or an object within 1e-9 of equidistant from two centres are discarded before the second run. "
+    "the ambiguity band of a scale edge or an object within 1e-12 (squared chord) of equidistant from two centres are discarded before the second run. "
     "Non-trivial: base DD counts non-zero in a cross-patch cell (and rotation angle > 1 degree for rotations); distinct = case digest."
 )
 ASSUMPTIONS = [
@@ -143,7 +143,7 @@ def transform_case(base, t):
         return [c], {"angle": angle}
     if t["kind"] == "rows":
         for cat, perm in zip(cats, t["perms"]):
-            for k in ("ra", "dec", "w", "z"):
+            for k in ("ra", "dec", "w", "z", "stale_pid"):
                 if cat.get(k) is not None:
                     cat[k] = [cat[k][i] for i in perm]
         return [c], {}
@@ -170,7 +170,7 @@ def run_case(case):
     cxyz = pl.to_xyz(centers[:, 0], centers[:, 1])
     K = len(centers)
     samples = [pl.Sample(c, cxyz) for c in base["scene"]["cats"]]
-    if min(s.margin.min() for s in samples) < 1e-9:
+    if min(s.margin.min() for s in samples) < 1e-12:  # squared-chord margin; rotations perturb it by ~1e-16
         return Result.discard("near-equidistant-object")
     with Scratch() as tmp:
         try:
@@ -222,7 +222,7 @@ def run_case(case):
 
                     c2 = copy.deepcopy(base)
                     cat = c2["scene"]["cats"][ci]
-                    for k in ("ra", "dec", "w", "z"):
+                    for k in ("ra", "dec", "w", "z", "stale_pid"):
                         if cat.get(k) is not None:
                             cat[k] = [v for v, keep in zip(cat[k], m) if keep]
                     (tmp / f"part{j}").mkdir()
